@@ -712,7 +712,24 @@ func (in *Interp) decodeRune(s *Str) Value {
 		}
 		return runeErr
 	}
-	in.unsupported("utf8.DecodeRuneInString on a symbolic lead byte of a 3/4-byte sequence")
+	// three-byte sequences: lead 0xE0..0xEF; second byte A0..BF after E0, 80..9F after ED, else 80..BF
+	if in.branch(tf.Cmp(OpUle, b, tf.BV(8, 0xef))) {
+		if a.Len() < 3 {
+			return runeErr
+		}
+		b1, b2 := a.ByteAt(tf, 1), a.ByteAt(tf, 2)
+		lo2 := tf.Ite(tf.Eq(b, tf.BV(8, 0xe0)), tf.BV(8, 0xa0), tf.BV(8, 0x80))
+		hi2 := tf.Ite(tf.Eq(b, tf.BV(8, 0xed)), tf.BV(8, 0x9f), tf.BV(8, 0xbf))
+		ok := tf.AndN(tf.Cmp(OpUle, lo2, b1), tf.Cmp(OpUle, b1, hi2), tf.Cmp(OpUle, tf.BV(8, 0x80), b2), tf.Cmp(OpUle, b2, tf.BV(8, 0xbf)))
+		if in.branch(ok) {
+			x := tf.Bin(OpShl, tf.Bin(OpBAnd, tf.Resize(b, 32, false), tf.BV(32, 0x0f)), tf.BV(32, 12))
+			y := tf.Bin(OpShl, tf.Bin(OpBAnd, tf.Resize(b1, 32, false), tf.BV(32, 0x3f)), tf.BV(32, 6))
+			z := tf.Bin(OpBAnd, tf.Resize(b2, 32, false), tf.BV(32, 0x3f))
+			return Tuple{IntV{tf.Bin(OpBOr, tf.Bin(OpBOr, x, y), z)}, IntV{tf.BV(64, 3)}}
+		}
+		return runeErr
+	}
+	in.unsupported("utf8.DecodeRuneInString on a symbolic lead byte of a four-byte sequence")
 	return nil
 }
 
